@@ -59,7 +59,7 @@ flags: --slice-formula
 */
 /*@unit
 name: str_splice.refused
-define: VP=str, U_SPLICE, U_NONEMPTY, U_REFUSED, U_POSCNT
+define: VP=str, VSTR_INST=0, VSTR_OWN_MEMCPY, VSTR_OWN_REALLOC, U_SPLICE, U_NONEMPTY, U_REFUSED, U_POSCNT
 src: str.c, obj.c
 enforce: spif_str_splice
 backend: kissat,sat
@@ -136,7 +136,7 @@ flags: --slice-formula
 */
 /*@unit
 name: str_splice_from_ptr.refused
-define: VP=str, U_SPLICE_FROM_PTR, U_NONEMPTY, U_REFUSED, U_POSCNT
+define: VP=str, VSTR_INST=0, VSTR_OWN_MEMCPY, VSTR_OWN_REALLOC, U_SPLICE_FROM_PTR, U_NONEMPTY, U_REFUSED, U_POSCNT
 src: str.c, obj.c
 enforce: spif_str_splice_from_ptr
 backend: kissat,sat
@@ -249,7 +249,7 @@ flags: --slice-formula
 */
 /*@unit
 name: ustr_splice.refused
-define: VP=ustr, U_SPLICE, U_NONEMPTY, U_REFUSED, U_POSCNT
+define: VP=ustr, VSTR_INST=0, VSTR_OWN_MEMCPY, VSTR_OWN_REALLOC, U_SPLICE, U_NONEMPTY, U_REFUSED, U_POSCNT
 src: ustr.c, obj.c
 enforce: spif_ustr_splice
 backend: kissat,sat
@@ -326,7 +326,7 @@ flags: --slice-formula
 */
 /*@unit
 name: ustr_splice_from_ptr.refused
-define: VP=ustr, U_SPLICE_FROM_PTR, U_NONEMPTY, U_REFUSED, U_POSCNT
+define: VP=ustr, VSTR_INST=0, VSTR_OWN_MEMCPY, VSTR_OWN_REALLOC, U_SPLICE_FROM_PTR, U_NONEMPTY, U_REFUSED, U_POSCNT
 src: ustr.c, obj.c
 enforce: spif_ustr_splice_from_ptr
 backend: kissat,sat
